@@ -212,6 +212,20 @@ def projectOracles (p : Project) (cfg : Gn.Config) (a : Analysis) (implFiles : J
   let c01 : List (String × Bool) :=
     ["types.ts", "commands.ts", "events.ts", "index.ts"].filterMap fun n =>
       (fileText n).map fun t => ("c01_parses_" ++ (n.dropEnd 3).toString, Sx.parsesAsModule t)
+  -- C04 on the text: the parameter object declared for a command (`interface XParams` / `XParamsSchema` + its channel
+  -- interface) has exactly one key per analysed parameter and channel, in the configured case
+  let c04b : List (String × Bool) :=
+    match fileText "types.ts" with
+    | none => []
+    | some t =>
+      let d := ZF.declsOf t
+      let ok := a.commands.all fun c =>
+        let want := c.params.map (fun prm => Gn.paramKey cfg c prm.name prm.serdeRename) ++ c.channels.map (fun ch => Gn.paramKey cfg c ch.param none)
+        if want.isEmpty then true else
+        match d.objs.find? (·.1 = Gn.typeName c ++ cl!"Params") with
+        | some (_, ms) => sameMulti (ms.map (·.1)) want
+        | none => false
+      [("c04_declared_keys", ok)]
   -- keys: every emitted property key / parameter key must be an identifier (they are never quoted)
   let keys : List Str := (a.structs.flatMap fun st => if st.isEnum then [] else st.fields.map (Gn.fieldKey cfg st)) ++
     (a.commands.flatMap fun c => c.params.map (fun prm => Gn.paramKey cfg c prm.name prm.serdeRename) ++ c.channels.map (fun ch => Gn.paramKey cfg c ch.param none))
@@ -242,7 +256,7 @@ def projectOracles (p : Project) (cfg : Gn.Config) (a : Analysis) (implFiles : J
     [("c18_mapped_name_absent", mapped.all fun m => !allIds.contains m.1 && !allIds.contains (m.1 ++ cl!"Schema"))]
   -- the analysis with verbose output switched on finds the same commands, types and events
   let c07v : List (String × Bool) := [("c07_verbose_same_analysis", verboseSame)]
-  { results := c03 ++ c12 ++ c07 ++ c07v ++ c09 ++ c02 ++ c04 ++ c01 ++ c10 ++ c18, classes := classes }
+  { results := c03 ++ c12 ++ c07 ++ c07v ++ c09 ++ c02 ++ c04 ++ c04b ++ c01 ++ c10 ++ c18, classes := classes }
 where
   imp_commands_empty (a : Analysis) : Bool := a.commands.isEmpty
 
